@@ -82,12 +82,16 @@ fn main() {
         }
         std::process::exit(if n > 0 { 1 } else { 0 });
     }
-    match id.as_str() {
+    let body = std::panic::catch_unwind(std::panic::AssertUnwindSafe(|| match id.as_str() {
         "C01" => props::c01::run(&run),
         "C02" => props::c02::run(&run),
         "C15" => props::c15::run(&run),
         "C16" => props::c16::run(&run),
         "C20" => props::c20::run(&run),
+        "C03" => props::c03::run(&run),
+        "C06" => props::c06::run(&run),
+        "C07" => props::c07::run(&run),
+        "C08" => props::c08::run(&run),
         "C10" => props::c10::run(&run),
         "C11" => props::c11::run(&run),
         "C12" => props::c12::run(&run),
@@ -97,6 +101,11 @@ fn main() {
             eprintln!("unknown or unimplemented property {}", id);
             std::process::exit(2);
         }
+    }));
+    if let Err(p) = body {
+        let msg = p.downcast_ref::<String>().cloned().or_else(|| p.downcast_ref::<&str>().map(|s| s.to_string())).unwrap_or_default();
+        eprintln!("MACHINERY-FAILURE check={} the harness itself panicked: {}", id, msg);
+        std::process::exit(2);
     }
     std::process::exit(run.finish());
 }
